@@ -1,4 +1,4 @@
 SPECIFICATION Spec
 CONSTANT MaxGap = 9
-INVARIANTS GapsAreConsumed OpenBlockNotConsumed StopsAtToken EmitPlans
+INVARIANTS GapsAreConsumed OpenBlockNotConsumed StopsAtToken EmitPlans EmitGaps
 CHECK_DEADLOCK FALSE
